@@ -30,6 +30,8 @@ func runC04(c *eng.Ctx) {
 	p := c.P
 	downSamplingEmitsEverySlot(c)
 	rollupMarkOnlyForAFlushedTable(c)
+	c.Rule("ATOMIC", vsT+".CommitFamilyEditLog", func() { commitFamilyEditLogAtomic(c) })
+	c.Rule("PROV", "kv{edit log family id = the committing family}", func() { editLogOwnID(c) })
 	decodedRecordOwnsItsStrings(c)
 	compactionOutputClaimedUntilInstalled(c)
 
